@@ -55,6 +55,7 @@ class C03(Engine):
 
     def run(self, ex, plan):
         res = RunResult()
+        ex0 = ex
         ex = self.variant(ex, plan.get("build"))
         cpu = plan["cpu"]
         info = progs.cpu_info(cpu)
@@ -63,6 +64,10 @@ class C03(Engine):
                "exports": [tuple(e) for e in plan["exports"]]}
         M = images.image_bytes(img)
         lo, hi = min(M), max(M)
+        if plan.get("build") == "small" and hi - lo > (1 << 17):
+            # the page list of the small-page build is searched linearly: wide images are slow there, not wrong
+            ex = self.variant(ex0, "san")
+            res.probe("small_build_skipped_wide_image")
         src = images.render_image(img).encode()
         digests = []
         for fmt in plan["formats"]:
